@@ -143,6 +143,52 @@ def run(ck, prog, ctx):
 
     check_complete_iteration(ck, "SELECT", prog, [S + n for pr in PAIRS for n in pr] + [S + "gene_ids", S + "omim_disease_ids", S + "orpha_disease_ids", S + "categories", S + "information_content"], "the members of the set")
 
+    # ---------------------------------------------------------------- aggregated IC: a fast path for "nothing annotated" needs EVERY kind's union empty
+    # (`if genes.is_empty() || diseases.is_empty() { return default }` leaves the non-empty kind at 0 as well)
+    icb = prog.body(S + "information_content")
+    if icb is not None:
+        from engines import positive_edges as _pe13
+        UN = {"gene_ids": "Gene", "omim_disease_ids": "Omim", "orpha_disease_ids": "Orpha"}
+        tests_ = []
+        for bi, t in icb.calls():
+            if t.callee.method == "is_empty" and len(t.args) == 1:
+                ks = {UN[a[1].rsplit("::", 1)[-1]] for a in pvn.of_operand(icb, t.args[0]) if a[0] == "call" and a[1].rsplit("::", 1)[-1] in UN}
+                if len(ks) == 1:
+                    tests_.append((bi, next(iter(ks)), set(_pe13(icb, pvn, bi))))
+        kinds_used = {UN[t.callee.res.rsplit("::", 1)[-1]] for _, t in icb.calls() if (t.callee.res or "").rsplit("::", 1)[-1] in UN and (t.callee.res or "").startswith(S)}
+        setters_ = {bi for bi, t in icb.calls() if re.search(r"InformationContent::set_\w+$", t.callee.res or "")}
+        for h, bl in icb.natural_loops().items():
+            if bl & setters_:
+                setters_ |= {h}
+        if tests_ and setters_ and len(kinds_used) >= 2:
+            # enumerate the ways from the entry to a normal return that pass no setter; each must have taken the EMPTY edge of every kind's test
+            from engines import error_blocks as _eb13
+            errs = _eb13(icb)
+            bad_path = None
+            stack = [(0, frozenset(), (0,))]
+            n_paths = 0
+            while stack and n_paths < 4000:
+                x, took, path = stack.pop()
+                if x in setters_ or x in errs:
+                    continue
+                if x in icb.exits:
+                    n_paths += 1
+                    missing = kinds_used - set(took)
+                    if missing and any(k for _b, k, _e in tests_):
+                        bad_path = sorted(missing)
+                        break
+                    continue
+                for y in icb.succ[x]:
+                    if y in path:
+                        continue
+                    tk = set(took)
+                    for tb, k, pe in tests_:
+                        if (x, y) in pe:
+                            tk.add(k)
+                    stack.append((y, frozenset(tk), path + (y,)))
+            ck.ob("KIND", "aggregate-ic/fast-path", bad_path is None, "HpoSet::information_content %s" % ("leaves without computing only when the union of EVERY kind it computes is empty" if bad_path is None else
+                  "can return the all-zero default while the %s union was not tested to be empty (an `||` of the emptiness tests?): a set annotated with one kind only gets 0 for that kind too" % "/".join(bad_path)), where=icb.where())
+
     # ---------------------------------------------------------------- category counts
     cg = prog.body(S + "categories")
     if cg is not None:
